@@ -9,7 +9,7 @@
      c15_checkb              the verified checker the harness runs on the implementation's polynomial. *)
 From Coq Require Import List ZArith QArith Bool Arith Ring_polynom Permutation.
 From GV Require Import Lib.Tree Lib.PolyRefl15 Lib.Graph15 Model.AutoEq Proofs.AutoEqP Proofs.AutoEqR
-                       Proofs.AutoEqW Proofs.AutoEqC Proofs.AutoEqG.
+                       Proofs.AutoEqW Proofs.AutoEqC Proofs.AutoEqG Proofs.AutoEqE.
 Import ListNotations.
 Local Open Scope nat_scope.
 
@@ -145,6 +145,25 @@ Theorem C15_enum_rev_ok_upto_5 :
 Proof. exact enum_rev_ok_upto_5. Qed.
 Print Assumptions C15_enum_rev_ok_upto_5.
 
+(* GENERAL (all sizes, all schedules): the property the enumeration checker decides (every vertex subset
+   s of the node list, in canonical order, is reported exactly once if it contains the root and is connected
+   in the networkx sense [conn_set], and not at all otherwise; every reported list is duplicate-free and
+   inside the node list) holds for the backtracking enumeration of every well-formed graph.  This also
+   identifies the inductive notion [grown] of C15_enum_general with boolean connectivity. *)
+Theorem C15_enum_ok_general :
+  forall (ord : list nat -> list nat) (g : graph) (r : nat),
+    (forall l, Permutation (ord l) l) -> wf_graph g = true -> In r (g_nodes g) ->
+    enum_ok g r (enum_ord ord g r).
+Proof. exact enum_ok_general. Qed.
+Print Assumptions C15_enum_ok_general.
+
+Example C15_enum_ok_general_nonvacuous :
+  let g := ([10;3;7;22;5;41], [(10,3);(3,7);(7,10);(7,22);(22,5);(5,41);(3,41)]) in
+  wf_graph g = true /\ enum_okb g 7 (enum_ord (@rev nat) g 7) = true
+  /\ enum_okb g 7 (tl (enum_ord (@rev nat) g 7)) = false
+  /\ conn_set g [10;3;41] = true /\ conn_set g [10;41] = false.
+Proof. vm_compute. repeat split; reflexivity. Qed.
+
 (* GENERAL: on ONE evaluator, for every history of calls (any motifs of any size, roots, phi, u, in
    any interleaving) in which equal names denote equal motifs, every returned value (or raised
    error = None) is the one a fresh evaluator returns. *)
@@ -222,6 +241,25 @@ Theorem C15_check_sound :
                  == expectation g r (peval env ephi) (fun v => peval env (eu v)))%Q.
 Proof. exact c15_check_sound. Qed.
 Print Assumptions C15_check_sound.
+
+(* GENERAL (all sizes): the same identity on the level of the polynomial expressions the extracted model
+   reports, for every substitution of expressions for phi and u: the model's polynomial and the exact one take
+   the same value at every rational point ... *)
+Theorem C15_identity_general_poly :
+  forall (g : graph) (r : nat), wf_graph g = true -> In r (g_nodes g) ->
+  forall (ephi : pe) (eu : nat -> pe) (env : list Q),
+    (peval env (auto_gen alg_pe g r ephi eu) == peval env (exact_gen alg_pe g r ephi eu))%Q.
+Proof. exact identity_general_poly. Qed.
+Print Assumptions C15_identity_general_poly.
+
+(* ... hence a polynomial accepted by the verified checker agrees everywhere with the MODEL's polynomial
+   (motifs of any size): the checker cannot accept an output the model would not produce (as a function) *)
+Theorem C15_check_accepts_only_model :
+  forall (g : graph) (r : nat), wf_graph g = true -> In r (g_nodes g) ->
+  forall ephi eu ms, c15_checkb g r ephi eu ms = true ->
+  forall env, (peval env (monos_expr ms) == peval env (auto_gen alg_pe g r ephi eu))%Q.
+Proof. exact check_accepts_only_model. Qed.
+Print Assumptions C15_check_accepts_only_model.
 
 (* the enumeration checker means what it says *)
 Theorem C15_check_enum_spec :
